@@ -159,6 +159,12 @@ mut("C18-revert-split-part-name-fix", "emit.c",
     "					if (strEqual(fnnew, fnameName(fn)))\n", "					if (false)\n")
 
 
+mut("C13-revert-trailing-hash-fix", "scan.c",
+    "	if (scIsSysCmd && scLine)	return scanSysCommand();", "	if (scIsSysCmd)			return scanSysCommand();")
+mut("C13-revert-bare-constructor-fix", "tform.c",
+    "	if (tfHasSelf(tf) && tfIsId(tf) && tfIdSyme(tf) && symeExtension(tfIdSyme(tf))) {", "	if (tfHasSelf(tf) && tfIsId(tf) && symeExtension(tfIdSyme(tf))) {")
+
+
 def main():
     out = os.path.join(os.path.dirname(os.path.abspath(__file__)), "mutants")
     os.makedirs(out, exist_ok=True)
